@@ -55,4 +55,23 @@ PROPS = {
         "level_note": "Trusted: harness reference (refMask, refMatch, publicsuffix list from x/net).",
         "assumptions": COMMON_ASSUME + ["host names are lower-case in host-name requests (caller pre-condition)", "IPv4-mapped client addresses and zones are not generated"],
     },
+    "C03": {
+        "shards": (8, 16),
+        "rule": "mask patterns = (''|'|'|'||') + token sequence + (''|'|'|'/*') over 35 tokens (the 3 operators, letters in both cases, a digit, every regex metacharacter and punctuation class, space), enumerated exhaustively for 1..2 tokens (quick) / 1..3 and 4 on a reduced alphabet (thorough), with and without match-case; each pattern is run on ALL strings up to a length bound (3..5) over the pattern's own bytes (both cases) + {a / . % : _}, for || patterns also behind 9 scheme/sub-domain prefixes; rapid samples 2..8-token patterns with regex idioms as literals (a{2}, (x|y), [a-c], \\d ...) and 10..30 strings derived from the token list with mutations. "
+                "Oracle: hand-written mask matcher vs (1) the prepared *regexp.Regexp (hook) and (2) NetworkRule.Match. Non-trivial = pattern with an operator whose string set has both accepted and rejected strings; distinct by (pattern, match-case).",
+        "exhaustive_note": "all patterns up to the token bound, each against all strings up to the length bound over the pattern-derived alphabet",
+        "technique": "bounded-exhaustive pattern x string enumeration + rapid sampling against a reference mask matcher",
+        "level_text": "Decides the property for every pattern up to the token bound on every string up to the length bound; beyond that sampled. The quantifier's per-pattern decision for ALL strings (automata equivalence) is a different technique and is not claimed.",
+        "level_note": "Trusted: the reference matcher (separator class [^ a-zA-Z0-9.%_-]|$, || = (http|https|ws|wss):// + optional [a-z0-9_.-]+\\.); strings are sampled/bounded, not all strings.",
+        "assumptions": COMMON_ASSUME + ["strings are printable ASCII without newline", "patterns ending in a backslash, starting with @@ or of the /regex/ form are other syntax and are skipped (counted in labels)"],
+    },
+    "C05": {
+        "shards": (4, 16),
+        "rule": "rapid: (a) regex rules from a grammar (alternation at top level and in groups, capturing/non-capturing groups, classes, escapes \\d \\w \\s \\b \\xHH, quantifiers * + ? {m,n} with m=0, anchors, case-mixed literals), (b) mask patterns from the C03 generators plus literal-heavy masks, (c) every regex rule of the bundled lists (easylist, SDN filter, Russian filter). Witness strings are sampled from the regexp/syntax parse tree (random branch, repetition count incl. zero/minimum, class member, case flips) or derived from the mask token list, and kept only if the rule's own prepared matcher (hook) accepts them. "
+                "Oracle: accepted(u) => lower(u) contains Shortcut, and Match(u) is true. Non-trivial = rule with a non-empty shortcut and >=2 distinct accepted witnesses; distinct by rule text.",
+        "technique": "property-based testing (rapid) with grammar-based rule generation and parse-tree witness sampling; implication oracle",
+        "level_text": "Sampled search for a counterexample to the implication; the per-rule decision by language emptiness that the quantifier mentions is a different technique and is not claimed.",
+        "level_note": "Trusted: Go regexp as the definition of what a compiled pattern accepts; witnesses are sampled, so a counterexample that needs a very specific string can be missed.",
+        "assumptions": COMMON_ASSUME + ["strings are printable ASCII (Unicode case folding is outside the property)"],
+    },
 }
